@@ -69,6 +69,9 @@ def run(ctx):
             if m["kind"] == "history":
                 ctx.disagree(dict(site="concurrency", what="run-history"), f"a later run of {o['expr']!r} on the same tree differs from the first one after a run on another tree",
                              dict(kind="history", expr=o["expr"], first=m["want"], later=m["got"]))
+    # histories of registrations: machines compiled earlier keep their symbols whatever is registered later
+    import fam_xfuncs
+    ftab = fam_xfuncs.stage(ctx, "C06", binary="xp-race")
     # (iii) free-running stress under the race detector
     sres = ctx.path("sres.ndjson")
     r2 = ctx.run_bin("xp-race", ["stress", "-g", "16", "-n", "400" if quick else "5000", "-out", sres], timeout=1800, check=False)
@@ -108,7 +111,7 @@ def run(ctx):
     cov = dict(evaluations=cstats["steps"], distinct_nontrivial=cstats["schedules"],
                rule="schedules = complete behaviours of XPathConc.tla sampled by TLC -simulate (seeded), each replayed step by step on gated goroutines; "
                     "distinct = schedules (TLC's sampling does not repeat a behaviour with noticeable probability; not deduplicated)",
-               samples=samples, schedule_replay=cstats, history_vectors=nhist, stress=sstats, trace_events=events,
+               samples=samples, schedule_replay=cstats, history_vectors=nhist, function_table=ftab, stress=sstats, trace_events=events,
                race_reports=races + races2, exhaustive=False,
                explanation="exhaustive interleavings of two small configurations on the spec (states/transitions), sampled interleavings replayed on real goroutines under -race")
     return ctx.finish(cov, [
@@ -125,7 +128,7 @@ MANIFEST = {
              "freedom and interleaving-independent results on all interleavings of small configurations, and samples complete interleavings that the harness "
              "executes step by step on real goroutines gated at the hooks, built with -race: per-instruction runner states are validated by the machine "
              "spec, results compared with isolated runs before and after, and a compiler scheduled against a held mutex must stay out. A 16-goroutine "
-             "free-running stress run is judged by the same oracle.",
+             "free-running stress run is judged by the same oracle. Histories of function registrations between compilations and runs (XPathFuncs.tla: machines keep the symbols they were compiled with) are sampled by TLC and replayed.",
              note="memory-level races are observed by the Go race detector (trusted); schedules are sampled, not exhaustive, on the real code",
              design="4 C06", technique="TLA+ specification of the lock protocol and runs, TLC exhaustive + simulated schedules replayed on gated goroutines under the race detector, trace validation"),
 }
